@@ -547,6 +547,48 @@ example : ∀ g ∈ C03.subsetGrouping (ingestPairs exactT exMode (pairUp false 
     isDecoy g = true ∨ ∀ p ∈ g, isDecoyId p = false :=
   purity_subset_grouping exactT exMode _ (by decide +kernel)
 
+/-- a razor method on MaxQuant input reads the second protein cell (`Leading razor protein`): `AAK` gets `T2`
+    where the non-razor method lists `T1;T2`; the empty PEP cell of `CCK` is NaN, no error -/
+private def exRazorRows : List RawRow :=
+  [ { pep := "_AAK_", mod := "", score := some (1/100), prot := ["T1;T2", "T2"], decoy := false },
+    { pep := "_CCK_", mod := "", score := none, prot := ["T1", "T1"], decoy := false, cell := .empty },
+    { pep := "_DDK_", mod := "", score := none, prot := ["T3", "T3"], decoy := false, cell := .posInf } ]
+
+example : ingestFilesChecked exactT { format := .maxquant, remap := false, razor := true } [] [exRazorRows] =
+    .ok [ { peptide := "AAK", pep := 1/100, proteins := ["T2"] } ] := by decide +kernel
+
+example : ingestFilesChecked exactT { format := .maxquant, remap := false } [] [exRazorRows] =
+    .ok [ { peptide := "AAK", pep := 1/100, proteins := ["T1", "T2"] } ] := by decide +kernel
+
+/-- `bad_score_cell_rejected` / `file_raises_iff`: the same empty cell in a Percolator file is refused; -/
+example : ingestFilesChecked exactT { format := .percNative, remap := false } []
+    [[ { pep := "AAK", mod := "", score := some (1/100), prot := ["T1"], decoy := false },
+       { pep := "CCK", mod := "", score := none, prot := ["T1"], decoy := false, cell := .empty } ]] =
+    .error .badScoreCell := by decide +kernel
+
+/-- … Percolator refuses it even in a row the mapper would drop (unknown peptide), MaxQuant reads text that is
+    no number only in rows that yield a PSM: the same two rows are refused / ingested -/
+example : ingestFilesChecked exactT { format := .percNative, remap := true } [[("AAK", ["T1"])]]
+    [[ { pep := "AAK", mod := "", score := some (1/100), prot := ["T1"], decoy := false },
+       { pep := "CCK", mod := "", score := none, prot := ["T1"], decoy := false, cell := .junk } ]] =
+    .error .badScoreCell := by decide +kernel
+
+example : ingestFilesChecked exactT { format := .maxquant, remap := true } [[("AAK", ["T1"])]]
+    [[ { pep := "_AAK_", mod := "", score := some (1/100), prot := ["T1"], decoy := false },
+       { pep := "_CCK_", mod := "", score := none, prot := ["T1"], decoy := false, cell := .junk } ]] =
+    .ok [ { peptide := "AAK", pep := 1/100, proteins := ["T1"] } ] := by decide +kernel
+
+example : ingestFilesChecked exactT { format := .maxquant, remap := true } [[("AAK", ["T1"]), ("CCK", ["T2"])]]
+    [[ { pep := "_AAK_", mod := "", score := some (1/100), prot := ["T1"], decoy := false },
+       { pep := "_CCK_", mod := "", score := none, prot := ["T1"], decoy := false, cell := .junk } ]] =
+    .error .badScoreCell := by decide +kernel
+
+/-- Sage: `-inf` is the PEP `10 ** -inf = 0`, `inf` never enters -/
+example : ingestFilesChecked exactT { format := .sage, remap := false } []
+    [[ { pep := "AAK", mod := "", score := none, prot := ["T1"], decoy := false, cell := .negInf },
+       { pep := "CCK", mod := "", score := none, prot := ["T1"], decoy := false, cell := .posInf } ]] =
+    .ok [ { peptide := "AAK", pep := 0, proteins := ["T1"] } ] := by decide +kernel
+
 /-- hypotheses of `ingest_order_independent`: reversing the rows is a shuffle -/
 example : Shuffled [(([] : DMap), exRows)] [([], exRows.reverse)] :=
   ⟨[([], exRows)], List.Perm.refl _, RowsShuffled.cons rfl (List.reverse_perm _).symm RowsShuffled.nil⟩
